@@ -409,3 +409,49 @@ UNITS.append(dict(
     desc='[C02][C05] u == q * 2^cnt + r with |r| < 2^cnt and the remainder sign of the rounding mode (truncation: sign of u; floor: r >= 0; ceiling: r <= 0), which defines q and r uniquely; result normalised; u unchanged unless it is the destination',
     assumptions=['bounded stand-in: the _2exp forms have no proof unit (mpn_rshift at a symbolic limb offset, the pattern that left mpz_mul_2exp undecided); the check uses mpz_mul_2exp, mpz_sub, mpz_setbit, mpz_cmpabs, mpz_divisible_2exp_p of the same library to evaluate the defining equation'],
     timeout=300, selftest=[]))
+
+# ------------------------------------------------------------------ mpz_tdiv_q_2exp (proved: 4 partitions by branch and aliasing, 50-145 s each): |w| = |u| >> cnt limb-wise, sign of u
+from c04_alloc import mpz_obj as _mpz_obj
+from c03_mpn import copy_loop as _copy_loop
+_TQ_H = '''void h_%(name)s (void) {
+%(W)s%(U)s%(alias)s
+  mp_bitcnt_t cnt = nondet_ulong ();
+  gk = nondet_long (); gj = 0; gh = 0;
+  __CPROVER_assume (0 <= gk && gk < V_ZMAX && V_WF (w) && V_WF (u));
+  long su = V_SIZ (u), un = V_ABS (su), lc = (long) (cnt / 64); unsigned c = cnt %% 64;
+  __CPROVER_assume (%(part)s);
+  mp_limb_t Ua = (gk + lc < un && gk + lc >= 0) ? V_PTR (u)[gk + lc] : 0, Ub = (gk + lc + 1 < un && gk + lc + 1 >= 0) ? V_PTR (u)[gk + lc + 1] : 0;
+  mp_limb_t Utop = un > 0 ? V_PTR (u)[un - 1] : 0;
+  __gmpz_tdiv_q_2exp (w, u, cnt);
+  long sw = V_SIZ (w), wn = V_ABS (sw);
+  mp_limb_t Wk = gk < wn ? V_PTR (w)[gk < V_ALLOC (w) ? gk : 0] : 0;
+  mp_limb_t want = c ? ((Ua >> c) | (Ub << (64 - c))) : Ua;
+  if (un <= lc)
+    __CPROVER_assert (sw == 0, "[C02] |u| < 2^cnt: quotient 0");
+  else
+    {
+      long full = un - lc, exp = (c && (Utop >> c) == 0) ? full - 1 : full;
+      __CPROVER_assert (wn == exp && (wn == 0 || (sw < 0) == (su < 0)), "[C02] size = limbs of |u| >> cnt, sign of u");
+      __CPROVER_assert (gk < full ==> Wk == want, "[C02][C05] limb gk of |w| = bits [cnt + 64 gk, cnt + 64 gk + 64) of |u| (truncation toward zero)");
+    }
+  if (u != w) __CPROVER_assert ((long) V_SIZ (u) == su, "[C05] source unchanged");
+}'''
+_TQ_CONTRACT = '''void __gmpz_tdiv_q_2exp (mpz_ptr w, mpz_srcptr u, mp_bitcnt_t cnt)
+__CPROVER_requires (V_WF (w) && V_WF (u) && V_GHOSTS_OK)
+__CPROVER_assigns (*w, __CPROVER_object_whole (V_PTR (w)), gk)
+__CPROVER_frees (V_PTR (w))
+__CPROVER_ensures (V_WF_AT (w, gk) && gk == __CPROVER_old (gk));
+'''
+for _at, _ac in (('', '  mpz_ptr w = &W; mpz_srcptr u = &U;\n'), ('wu', '  mpz_ptr w = &W; mpz_srcptr u = w;\n')):
+    for _pt, _pc in (('bits', 'c != 0'), ('limbs', 'c == 0')):
+        _nm = 'mpz_tdiv_q_2exp_' + _pt + ('_' + _at if _at else '')
+        UNITS.append(dict(
+            name=_nm, props=['C02', 'C05', 'C04', 'C15'], source='mpz/tdiv_q_2exp.c', contracts=['mpn.h', 'mpz.h'], contract_text=_TQ_CONTRACT,
+            enforce=['__gmpz_tdiv_q_2exp'], replace=['__gmpz_realloc', '__gmpn_rshift'], replay='mpz_tdiv_q_2exp',
+            assumptions=['partition: %s, %s' % (_pc, _at or 'w != u')],
+            functions={'__gmpz_tdiv_q_2exp': dict(
+                # mpn_rshift's contract speaks about its own position gk < n: a harness position beyond the quotient is mapped to 0 for the call (nothing is claimed about it)
+                inserts=[(r'__gmpn_rshift \(wp, up \+ limb_cnt, wsize, cnt\);', r'{ long V_sv = gk; gk = gk < wsize ? gk : 0; \g<0> gk = V_sv; }')],
+                loops={0: _copy_loop('gk', 'incr')} if _pt == 'limbs' else {0: 'unreachable'})},
+            harness=_TQ_H % dict(name=_nm, W=_mpz_obj('W'), U=_mpz_obj('U'), alias=_ac, part=_pc), timeout=900,
+            selftest=[('__gmpz_tdiv_q_2exp', r'wsize -= wp\[wsize - 1\] == 0;', ';')] if _pt == 'bits' and not _at else []))
